@@ -14,6 +14,7 @@ LEVEL_TEXT = ("Termination and error-family monitoring: every tokenize / parse /
               "insertion over a fixed corpus (seed-independent), plus seeded multi-edit mutations, keyword soups, random "
               "Unicode and valid statements, over rotating dialects and all four error levels, followed by generation of every "
               "tree the parser returned.")
+LEVEL_TEXT += (' A lexeme zoo (every prefix / suffix / one-character deletion of ~70 seed lexemes in 8 contexts) is tokenized in every dialect. Termination is decided by a two-stage logical budget: function starts always; after a 5 s watchdog interrupt the call is repeated with loop iterations (JUMP events) counted as well, so that loops without calls are decided by a count, never by the clock.')
 LEVEL_NOTE = ("'never loops forever' is restated as bounded work per call; a wall-clock watchdog only ever yields inconclusive. "
               "Internal exceptions raised after an error was already recorded at IGNORE/WARN/RAISE are one listed finding, "
               "identified by a predicate on the witness (the same text raises ParseError at IMMEDIATE)")
